@@ -59,6 +59,12 @@ ASSUMPTIONS = [
     "Lanelet.distance / inner_distance or TrafficLightCycle.cycle_init_timesteps (these are exercised as operations instead)",
     "the file date (XML attribute `date`, protobuf information.date) is erased before comparing exports",
     "an export that raises before and raises the same exception class after counts as the same export",
+    "model side: geometry and goal decisions are parameters of the model operations (evaluated on a third, untouched copy of the "
+    "scenario); every public attribute that no modelled operation looks into enters the model state as one content token "
+    "(CR.Frame.Extra), so the frame theorem speaks about it but cannot see inside it",
+    "the frame theorem C18_obs_frame is about the finite list of modelled operation kinds (28 step cases incl. the generic `reads`), "
+    "not about every conceivable read-only call of the library; for `reads` the proof covers any list of filled caches, the absence "
+    "of other side effects of those calls is decided by the oracle",
 ]
 TRUSTED = ["matplotlib Agg backend, lxml, protobuf runtime (used only to run the operations under test and to erase the date)"]
 REQUIRED_BUCKETS = ["op:reached_own", "traj:custom-full", "op:occ", "op:state", "op:occs", "op:find_pos", "op:light", "op:reached", "op:eq", "op:hash", "op:copy",
